@@ -325,6 +325,55 @@ def run(chk, ctx):
                            'power with exponent in [%s, %s]' % iv,
                            site='pamqp/decode.py')
     chk.floor('C08.A', 1, 'exponentiations checked', count=n_pow)
+    # allocations sized by a decoded integer must be bounded by the buffer
+    # (a length field is not checked against the data before it is used)
+    nalloc = 0
+    aseen = set()
+    for it_ in runs:
+        for e_ in it_.effects:
+            if e_.kind != 'alloc-sized':
+                continue
+            n_, (what_, kn_) = e_.target, e_.detail
+            if (e_.site, n_) in aseen:
+                continue
+            aseen.add((e_.site, n_))
+            nalloc += 1
+            hi_ = kn_.lin_interval(n_)[1]
+            bounded = hi_ is not None and hi_ <= (1 << 16)
+            if not bounded:
+                for a_ in kn_.atoms:
+                    # a path fact  n <= len(buffer) - k  /  n + k <= len(..)
+                    if isinstance(a_, Sym) and T.mentions(
+                            a_, lambda t: t is n_) and T.mentions(
+                                a_, lambda t: t.op == 'len'):
+                        for b_ in [t for t in T.subterms(a_)
+                                   if t.op == 'len']:
+                            d_ = T.sub(b_, n_)
+                            lo_ = kn_.lin_interval(d_)[0] if not isinstance(
+                                d_, int) else d_
+                            if lo_ is not None and lo_ >= 0:
+                                bounded = True
+            chk.ob('C08.A', '%s at %s' % (what_, e_.site), bounded,
+                   'allocates %s with n = %s: %s' % (
+                       what_, T.show(n_)[:60],
+                       'n is bounded by the length of the buffer' if bounded
+                       else 'n comes from the wire and is not checked '
+                       'against the data available'), site=e_.site)
+    # memory kept across calls: no caching wrapper on the decode side
+    from .. import models
+    dfuncs = [fi for fi in prog.functions.values()
+              if fi.module.name.endswith(('.decode', '.frame', '.header',
+                                          '.body', '.heartbeat', '.base'))]
+    caching, unknown_deco = models.wrappers(prog, dfuncs)
+    chk.rule('C08.M', 'no caching wrapper on the decode side: what a call '
+             'allocates is released with its result')
+    chk.ob('C08.M', 'decode side wrappers', not caching,
+           '%d functions, none cached' % len(dfuncs) if not caching else
+           'cached: %s (arguments - the remaining buffer - and results are '
+           'retained for the life of the process)' % caching)
+    if unknown_deco:
+        chk.undecide('C08.M', 'decorators without a model',
+                     '; '.join(unknown_deco[:3]))
     # remaining (static) loops on the decode side: For loops that the
     # interpreter unrolled are bounded by literal sequences; list them
     nstatic = 0
